@@ -278,14 +278,14 @@ func runC01(c *mon.Ctx) {
 
 	// (b) random deep values
 	r := c.Rand("values")
-	nRand := c.Scale(5000, 200000)
+	nRand := c.Scale(5000, 2000000)
 	for k := 0; k < nRand; k++ {
 		v := gen.RandValue(r, gen.JSONOpts{Depth: r.Range(1, 5), Width: r.Range(1, 5)})
 		one("random", v, 4, k%4 == 0)
 	}
 
 	// (c) invalid texts
-	nBad := c.Scale(3000, 50000)
+	nBad := c.Scale(3000, 500000)
 	for k := 0; k < nBad; k++ {
 		v := gen.RandValue(r, gen.JSONOpts{Depth: r.Range(0, 3), Width: 3})
 		base := sc.Bytes(v)
